@@ -156,6 +156,10 @@ mod verif_cex_cursor {
             ("two-many", 40, 6, 400, vec![('d', 6, 30), ('p', 12, 14), ('o', 20, 22)]),
             ("two-all", 24, 6, 400, vec![('d', 0, 24), ('p', 5, 7)]),
             ("two-mixed", 60, 6, 150, vec![('o', 10, 20), ('d', 0, 9), ('d', 30, 45), ('p', 33, 36), ('d', 55, 60)]),
+            ("two-promote-untouched", 8, 6, 200, vec![('d', 0, 6)]),
+            ("two-one-of-two-a", 4, 6, 200, vec![('d', 0, 2)]),
+            ("two-one-of-two-b", 4, 6, 200, vec![('d', 2, 4)]),
+            ("two-promote-first", 8, 6, 200, vec![('d', 2, 8)]),
             ("three-mid", 120, 200, 100, vec![('d', 30, 40), ('d', 40, 44)]),
             ("three-span", 120, 200, 100, vec![('d', 10, 100), ('o', 50, 52)]),
             ("three-first-last", 120, 200, 100, vec![('d', 0, 9), ('d', 111, 120), ('p', 3, 4)]),
